@@ -8,6 +8,8 @@ import (
 	"flag"
 	"fmt"
 	"hash/fnv"
+	"io"
+	"log"
 	"os"
 	"sort"
 	"strconv"
@@ -331,6 +333,9 @@ func Main(m *testing.M, property, level, rule string) {
 	R.Level = level
 	R.Rule = rule
 	R.start = time.Now()
+	if os.Getenv("VERIF_LOG") == "" {
+		log.SetOutput(io.Discard) // perkeep logs every failure it handles
+	}
 	code := m.Run()
 	R.Flush(code != 0)
 	os.Exit(code)
